@@ -2,7 +2,7 @@
    translated from src/heartbeats.rs on every run): the verdict (Expired or not) and the time the
    timer is re-armed for are equal on all inputs.  Stdlib only, no axioms. *)
 From Coq Require Import String.
-From Amq Require Import Lib.Base Gen.Consts Gen.Src Model.Heartbeat.
+From Amq Require Import Lib.Base Lib.RsResult Gen.Consts Gen.SrcFire Model.Heartbeat.
 Open Scope string_scope.
 
 Theorem fire_source_is_model last interval deadline now :
